@@ -27,6 +27,29 @@ def const_int(r):
     return None
 
 
+def unit_step(fn, ref):
+    """(base ref, +1 | -1) if `ref` is  x + 1 / x - (-1)  or  x - 1 / x + (-1)  on a 64- or 32-bit integer; else (None, 0)"""
+    i = fn.get(ref) if isinstance(ref, str) else None
+    if i is None or i.op not in ('add', 'sub') or len(i.o) != 2:
+        return None, 0
+    c = const_int(i.o[1])
+    if c is None:
+        return None, 0
+    bits = i.x.get('bits') or 64
+    minus1 = (1 << bits) - 1
+    if i.op == 'add':
+        if c == 1:
+            return i.o[0], 1
+        if c == minus1:
+            return i.o[0], -1
+    else:
+        if c == 1:
+            return i.o[0], -1
+        if c == minus1:
+            return i.o[0], 1
+    return None, 0
+
+
 def is_null(r):
     return r == 'null'
 
@@ -274,6 +297,61 @@ class Function:
             out.append(b)
             stack.extend(b.succ)
         return out
+
+    def thread_succ(self, b, pred):
+        """successors of b when entered from pred: a block that branches on a phi of its own whose incoming value
+        from `pred` is a constant (the CFG shape of a short-circuit `a && b` loop condition) only continues to
+        the successor that constant selects"""
+        t = b.term if b.insts else None
+        if pred is None or t is None or t.op != 'br' or not t.o:
+            return b.succ
+        c = self.get(t.o[0]) if isinstance(t.o[0], str) else None
+        if c is None or c.op != 'phi' or c.block is not b:
+            return b.succ
+        for v, bb in zip(c.o, c.x['bb']):
+            if bb == pred.name:
+                k = const_int(v)
+                if v in ('true', 'false'):
+                    k = 1 if v == 'true' else 0
+                if k is None:
+                    return b.succ
+                succ = t.x['succ']
+                return [self.bb[succ[0] if k else succ[1]]]
+        return b.succ
+
+    def threaded_paths(self, first, second):
+        """blocks that lie on some path first -> second which does not re-enter `first` and respects thread_succ;
+        None when second is not reachable that way.  Returned blocks exclude first and second themselves;
+        the flag says whether a path can pass through second more than once."""
+        start = [(sb, first) for sb in first.succ]
+        seen = set()
+        edges = {}
+        stack = list(start)
+        while stack:
+            b, p = stack.pop()
+            key = (b.idx, p.idx)
+            if key in seen or b is first:
+                continue
+            seen.add(key)
+            for nb in self.thread_succ(b, p):
+                edges.setdefault((nb.idx, b.idx), set()).add(key)
+                stack.append((nb, b))
+        targets = [k for k in seen if k[0] == second.idx]
+        if not targets:
+            return None, False
+        # backward closure over the recorded state edges
+        back = set(targets)
+        through = set()                       # states that precede a target on such a path
+        stack = [p for k in targets for p in edges.get(k, ())]
+        while stack:
+            k = stack.pop()
+            if k in through:
+                continue
+            through.add(k)
+            stack.extend(edges.get(k, ()))
+        again = any(k[0] == second.idx for k in through)
+        mids = {k[0] for k in through if k[0] != second.idx}
+        return [bl for bl in self.blocks if bl.idx in mids], again
 
     def edge_dominates(self, src, dst, b):
         """does the CFG edge src->dst dominate block b (every path entry->b uses the edge)?"""
